@@ -40,6 +40,7 @@ pub enum TL {
     HandleEnd { tr: usize, how: EndHow },
     Sample(usize),
     Advance(u64),
+    Burn(u32),
 }
 
 #[derive(Clone, Debug)]
@@ -159,6 +160,7 @@ impl<'a> View<'a> {
                 Event::Queued { .. } => {}
                 Event::Sample(_) => tl.push(TL::Sample(ei)),
                 Event::Advance { to } => tl.push(TL::Advance(*to)),
+                Event::Burn { n } => tl.push(TL::Burn(*n)),
             }
         }
         View { trace, out, trs, tl }
